@@ -35,6 +35,9 @@ def parseMatch : List String → Option MatchRes
 def verdict (b : Bool) (why : String) : String := if b then "ok" else "fail " ++ why
 
 def specCheck (prop : String) (op res : List String) : String :=
+  -- the harness watchdog: the implementation did not return from this operation at all
+  if res == ["HANG"] then "fail the call did not return (deadlock or endless loop) within the watchdog period" else
+  if res == ["not-run-after-hang"] then "nospec" else
   match prop, op with
   | "C04", ["status_from_rpc", n] =>
     match n.toNat?, parseOptNat res with
